@@ -455,6 +455,11 @@ var TemplatesA = []Template{
 		}
 		b[3] = mn + mx*2 + c*3
 	}},
+	{"loop-body-var-without-initializer", "u32", "", "for (var i = 0u; i < 3u; i++) { var x: u32; var y: vec2<u32>; x += buf[i]; y.x += x; buf[4u + i] = x + y.x + y.y; }", func(b []uint32) {
+		for i := 0; i < 3; i++ {
+			b[4+i] = 2 * b[i] // x and y start from zero in every iteration
+		}
+	}},
 }
 
 // BinAsTemplate turns an integer binary operator into a template: buf[2] = buf[0] OP buf[1].
